@@ -2,7 +2,6 @@ package fsnotify
 
 import (
 	"errors"
-	"unsafe"
 
 	"golang.org/x/sys/unix"
 )
@@ -10,13 +9,7 @@ import (
 // C09 — a watch ends when its path is deleted or renamed, and can be re-added.
 
 func verifDeliver(w *inotify, wd uint32, mask, cookie uint32) (Event, bool) {
-	var buf [65536]byte
-	ev := (*unix.InotifyEvent)(unsafe.Pointer(&buf[0]))
-	ev.Wd = int32(wd)
-	ev.Mask = mask
-	ev.Cookie = cookie
-	ev.Len = 0
-	return w.handleEvent(ev, &buf, 0)
+	return verifFeed(w, wd, mask, cookie, "")
 }
 
 func H_ended_then_ops() {
@@ -190,13 +183,7 @@ func H_names_concrete() {
 	verifK.addResolve = 0
 	verifAssert(w.Add(p) == nil, "Add")
 	wd := uint32(verifK.nextWd)
-	var buf [65536]byte
-	ev := (*unix.InotifyEvent)(unsafe.Pointer(&buf[0]))
-	ev.Wd = int32(wd)
-	ev.Mask = unix.IN_CREATE
-	ev.Len = uint32((len(n)/16 + 1) * 16)
-	copy(buf[16:], n)
-	got, ok := w.handleEvent(ev, &buf, 0)
+	got, ok := verifFeed(w, wd, unix.IN_CREATE, 0, n)
 	verifAssert(ok && got.Op == Create, "Create delivered")
 	verifAssert(got.Name == p+"/"+n, "entry events are named: the cleaned Add argument, a separator, the entry name - nothing re-cleaned or resolved")
 	self, ok2 := verifDeliver(w, wd, unix.IN_ATTRIB, 0)
@@ -205,14 +192,7 @@ func H_names_concrete() {
 }
 
 func verifDeliverNamed(w *inotify, wd uint32, mask, cookie uint32, name string) (Event, bool) {
-	var buf [65536]byte
-	ev := (*unix.InotifyEvent)(unsafe.Pointer(&buf[0]))
-	ev.Wd = int32(wd)
-	ev.Mask = mask
-	ev.Cookie = cookie
-	ev.Len = uint32((len(name)/16 + 1) * 16)
-	copy(buf[16:], name)
-	return w.handleEvent(ev, &buf, 0)
+	return verifFeed(w, wd, mask, cookie, name)
 }
 
 // C11: API calls between the two halves of a move (on other watches, or on the
